@@ -5,10 +5,14 @@ ROOT = os.path.dirname(os.path.dirname(os.path.abspath(__file__)))
 TECH_V = 'contract-based deductive verification: Verus (Z3) on functions mechanically extracted from /repo on every run, contracts spliced from /verif/specs'
 TECH_K = 'contract-based deductive verification: Kani/CBMC complete (loop-free, full-domain) harness-contracts on the real compiled crates'
 CLAIMED = {
+ 'C03': dict(engine='verus', tech=TECH_V + ' (await-erased); bounded response table stand-in (labelled bounded, never counted)', text='Kernel contract only: <Option<T> as OutputType>::resolve (await-erased) is proved to turn an inner error into Ok(Null) with the error recorded exactly once, and to leave successful values and the error list untouched. Error propagation through the executor is only sampled by a hand-written response table (three open known findings).',
+             note='Trusted: await-erasure (sequential reading), Mutex-guarded error list as &mut state, abstract inner resolve. Not covered: try_join_all short-circuiting, list items, derive-generated resolve_field, dynamic executor, subscriptions.'),
  'C07': dict(engine='verus', tech=TECH_V, text='Kernel contracts only: ScalarType::{parse,to_value,is_valid} of the integer scalars are proved, for all values, to accept exactly the type\'s integer range and to round-trip (parse(to_value(x)) == Ok(x)).',
              note='Trusted: serde_json::Number model (as_i64/as_u64/From), 64-bit usize, extraction rewrites R-self/R-msg/R-closure/R-from. Not covered: the #[Scalar] macro wrapper, floats, derive-generated enums.'),
  'C08': dict(engine='verus+kani', tech=TECH_K + '; ' + TECH_V, text='Kernel contracts only: maximum/minimum for every (T,N) the derive can generate are proved on the compiled real code against exact arithmetic (Kani, complete); multiple_of::<int,i64> and the six length validators are proved with Verus. Three open known findings are carved out and re-confirmed on every run.',
              note='Trusted: CBMC/Kani, fmt::format stub, std str length specs. Not covered: derive/src/validators.rs code generation (list mode), multiple_of with float operands, regex.'),
+ 'C09': dict(engine='verus', tech=TECH_V + '; bounded validity-table stand-in (labelled bounded, never counted)', text='Kernel contract only: the composite visitor VisitorCons is proved to forward every hook of trait Visitor (method list read from the real trait on every run) to both members in order with the same arguments -- except the two input-value hooks, which it does not forward (open known finding, re-confirmed on every run). The rules themselves are only sampled by a hand-labelled validity table.',
+             note='Trusted: hook effects modelled by uninterpreted functions; parameter types opaque. Not covered: the 22 individual rules and the visit_* driver; MetaTypeName::is_subtype; is_valid_input_value.'),
  'C10': dict(engine='verus', tech=TECH_V, text='Kernel contracts only: the recursion-depth walker of check_recursive_depth is proved (unbounded, incl. termination on cyclic fragments and overflow freedom) to reject exactly the documents whose selection nesting, with fragments inlined, exceeds the limit.',
              note='Trusted: HashMap lookup shim, ServerError shim, AST types extracted verbatim. Not covered yet: depth/complexity visitors, check_rules limit comparison, the visitor driver, generated compute_complexity.'),
  'C12': dict(engine='verus', tech=TECH_V + '; bounded replay enumeration stand-in for the parser builders (labelled bounded, never counted)', text='Kernel contracts only: Upload::parse is proved panic-free for every Option<Value>; the recursion-depth walker (shared unit with C10) is proved overflow-free and terminating on every document incl. cyclic fragments. The parser builders are only exercised by a bounded enumeration (no panic; nesting beyond the limit rejected).',
@@ -21,6 +25,12 @@ CLAIMED = {
              note='Trusted: String fmt::Write spec. Not covered: export_type/export_fields (writeln! over the registry), block-string descriptions.'),
  'C20': dict(engine='verus', tech=TECH_V, text='Kernel contract only: CacheControl::merge equals the restrictiveness-order combination for all i32/bool pairs; commutativity, associativity, idempotence proved as lemmas.',
              note='Trusted: nothing beyond Verus/Z3 and the extraction. Not covered: that the visitor driver visits every selection; derive-emitted cache hints.'),
+ 'C21': dict(engine='verus', tech=TECH_V + '; bounded logged-text stand-in (labelled bounded, never counted)', text='Kernel contract only: Registry::stringify_input_value is proved to print exactly "<secret>" for a secret input value (nothing of the value), the plain rendering for non-secret leaves, and to be append-only. That nested values are printed with the meta of their own field, and the selection-set walk, are only sampled by a bounded enumeration of operations with a secret marker.',
+             note='Trusted: registry field-subset shims, IndexMap entry shim, Display of ConstValue opaque; termination of the recursion not proved. Not covered: stringify_selection_set / stringify_exec_doc (closure chains), logger/tracing call sites.'),
+ 'C22': dict(engine='verus', tech=TECH_V, text='Kernel contracts only: look_ahead::filter is proved (unbounded loop invariant, recursion through inline fragments and spreads) to append exactly the sub-fields named `name` in document order, and Lookahead::field to concatenate that over all parent fields -- for every document with a finite fragment expansion.',
+             note='Trusted: HashMap lookup shim, String equality axiom; termination of filter not proved (cyclic fragments are rejected by validation, unverified). Not covered: SelectionFieldsIter (context.rs), resolved argument values, @skip/@include pruning (C01 kernel, not composed).'),
+ 'C29': dict(engine='verus', tech=TECH_V + '; bounded history stand-in for the async DataLoader API (labelled bounded, never counted)', text='Kernel contracts only: get/insert/remove/clear of HashMapCacheImpl, LruCacheImpl and NoCacheImpl are proved against an abstract map view stated over the whole map (LRU: hit refreshes recency, insert at capacity evicts exactly the least recently used). The async DataLoader operations are only exercised on bounded single-threaded histories.',
+             note='Trusted: std HashMap and lru::LruCache shims with their documented semantics; K = V = u64 instantiation. Not covered: DataLoader::{load_many, feed_many, enable_cache, ...} (async, scc::HashMap, dyn Any) beyond the bounded histories; interleavings (C28).'),
  'C33': dict(engine='verus', tech=TECH_V, text='Kernel contracts only: TypeRef::is_subtype equals the spec\'s IsValidImplementationFieldType (named types identical), is_nullable/type_name/typeref_nonnullable_name against their definitions, for all type-reference trees.',
              note='Trusted: String equality axiom, Cow<str> represented as String. Not covered: the IndexMap-driven check_* loops of dynamic/check.rs, post-build robustness.'),
 }
